@@ -61,6 +61,7 @@ S_GROW = S([0, 0, 0], aff(0.5, t=0.5))
 S_MOVE = S([aff(0, t=1), 0, 0.2], 0.6)
 G_S = S([0.7, 0.3, 0], 0.6)
 IN_S = S([0.1, 0, 0], 0.4)
+IN_S2 = S([0.05, 0, 0], 0.3)          # strictly inside S_GROW for every t (IN_S is tangent to it at t=0)
 # convex polyhedra realised by TrimeshPolyhedron (reference: tpmc.ref.poly3d); inward winding / STL file as variants
 M_TET = M("tetra")
 M_BOX = M("box", "in", "file")
@@ -129,7 +130,7 @@ def booleans1(tier):
 def booleans3(tier):
     out = [Cut(S1, IN_S, contained=True), N(S1, G_S), Cut(M_BOX, M_IN_S, contained=True), N(M_TET, M_G_S)]
     if tier == "thorough":
-        out += [U(S1, G_S), Cut(S1, G_S), U(S2, S([3, 0, 0], 0.5), disjoint=True), Cut(S_GROW, IN_S),
+        out += [U(S1, G_S), Cut(S1, G_S), U(S2, S([3, 0, 0], 0.5), disjoint=True), Cut(S_GROW, IN_S2),
                 U(M_TET, M_G_S), Cut(M_TET, M_G_S), U(M_TET, S([3, 0, 0], 0.5), disjoint=True),
                 Tr(M_TET, [aff(0, t=1), 0.5, 0])]
     return out
@@ -147,6 +148,8 @@ def nested2(tier):
                 for op1 in (U, Cut, N):
                     for op2 in (U, Cut, N):
                         out.append(op2(op1(f, g), h))
+                        if op2 is N and g is G_P and h is H[0]:
+                            continue       # G_P and that disc are disjoint: an EMPTY operand is not a set of positive measure
                         out.append(op1(f, op2(g, h)))
     out += [Cut(U(SQ, G_C), IN_C), U(Cut(SQ, IN_C, contained=True), FAR_C, disjoint=True),
             Cut(Cut(SQ, IN_C, contained=True), G_CMOVE), N(U(SQ_MOVE2, G_C), C1)]
